@@ -88,12 +88,14 @@ func CheckHashPassword(clientResp, scramble, encryptPassword []byte) bool {
 	crypt.Write(hashBytes)
 	hash := crypt.Sum(nil)
 
+	// work on a copy: the caller goes on to compare the same response with its other passwords
+	stage1 := make([]byte, len(clientResp))
 	for i := range clientResp {
-		clientResp[i] ^= hash[i]
+		stage1[i] = clientResp[i] ^ hash[i]
 	}
 
 	crypt.Reset()
-	crypt.Write(clientResp)
+	crypt.Write(stage1)
 	hash = crypt.Sum(nil)
 
 	return bytes.Equal(hashBytes, hash)
